@@ -27,6 +27,14 @@ def identity_member(desc, tier, seed):
     ctx.check('C18.copy-equal', c == g and g == c, wit, 'copy is not equal to the original', nt)
     ctx.check('C18.copy-same-hash', hash(c) == hash(g), wit, 'copy has another hash', nt)
     ctx.check('C18.copy-is-same', c.is_same(g) and c.fingerprint() == g.fingerprint(), wit, 'copy has another fingerprint', nt)
+    # the same description built again (new node objects): recognised as the same design space
+    try:
+        b2 = gen.Built(desc)
+        ctx.check('C18.rebuilt-is-same', b2.dsg.is_same(g) and g.is_same(b2.dsg) and b2.dsg.fingerprint() == f0,
+                  ['graph-api', 'rebuild'], 'a graph built again from the same description is not recognised as the same '
+                  '(is_same / fingerprint differ)', (desc.label, 'rebuild'))
+    except Exception as e:  # noqa
+        ctx.check('C18.rebuilt-is-same', False, ['graph-api', 'rebuild'], f'{type(e).__name__}: {e}', (desc.label, 'rebuild'))
     # single structural edits on a copy make it unequal
     edits = []
     extra = NamedNode('__extra__')
@@ -151,7 +159,8 @@ def hashseed_sweep(labels, seeds=(1, 2, 3)):
     here = os.path.dirname(os.path.dirname(os.path.abspath(__file__)))
     code = ("import sys, json; sys.path.insert(0, %r); from bounded import identitychecks, corpus; "
             "m = {d.label: d for d in corpus.corpus(['sel', 'inc', 'con', 'conn', 'dvmet'], 'quick')}; "
-            "print(json.dumps({l: identitychecks.canonical_digest(m[l]) for l in %r}))" % (here, list(labels)))
+            "import pickle, base64; from bounded import gen; "
+            "print(json.dumps({l: [identitychecks.canonical_digest(m[l]), base64.b64encode(pickle.dumps(gen.Built(m[l]).dsg)).decode()] for l in %r}))" % (here, list(labels)))
     out = {}
     for s in seeds:
         env = dict(os.environ, PYTHONHASHSEED=str(s), PYTHONPATH=os.environ.get('VERIF_REPO', '/repo'))
